@@ -1,6 +1,6 @@
 (* C10, part C: reductions (symmetry, hull), permutation invariance of an accumulator. *)
 From Coq Require Import List ZArith Bool Arith Reals Lra Lia Permutation.
-From Inferno Require Import Base.Num Base.NumR Gen.Bounding C10.Updater C10.KernelProofs C10.AccProofs.
+From Inferno Require Import Base.Num Base.NumR Gen.Bounding C10.Updater C10.KernelAlgebra C10.AccProofs.
 Import ListNotations.
 Open Scope R_scope.
 
